@@ -18,11 +18,11 @@ import (
 // available at run time).
 
 type sessionPlan struct {
-	Client int `json:"client"`
-	Srv    int `json:"srv"`
-	Host   int `json:"host"`
-	CI     bool `json:"client_initiated"`
-	Gap    int `json:"gap_ms"`
+	Client int    `json:"client"`
+	Srv    int    `json:"srv"`
+	Host   int    `json:"host"`
+	CI     bool   `json:"client_initiated"`
+	Gap    int    `json:"gap_ms"`
 	Chal   uint64 `json:"-"`
 }
 
@@ -645,7 +645,7 @@ func caseIdentities(types [3]int) []*keys.Identity {
 
 func TestServerProvenance(t *testing.T) {
 	name := t.Name()
-	hx.Check(t, 4000, 240000, 0, func(rt *rapid.T) {
+	hx.Check(t, 24000, 1000000, 0, func(rt *rapid.T) {
 		sc := drawScenario(rt)
 		var fp []string
 		var labels []string
